@@ -60,6 +60,19 @@ def chunksArrayPy (native : Order) (a : OrderArg) (fmt : Fmt) (size : Nat) (pad 
     Gen Bytes PackErr :=
   chunksArray native (resolveOrder native a.order) (leElem false fmt) (.int 0) size pad xs
 
+/-- what `chunks.default` points to -/
+inductive Strategy | struct | array
+  deriving DecidableEq, Repr
+
+/-- `chunks(seq, size, dfmt, byte_order, padval)` through the StrategyDict itself: the strategy that
+`chunks.default` names at the time of the call (`chunks.default = chunks.array` is the docstring's hint);
+`afmt` = the format as an array reads it (differs from `fmt` for l / L only) -/
+def chunksEntry (dflt : Strategy) (native : Order) (a : OrderArg) (fmt afmt : Fmt) (size : Nat) (pad : PVal)
+    (xs : List PVal) : Gen Bytes Exc :=
+  match dflt with
+  | .struct => let g := chunksStructPy native a fmt size pad xs; ⟨g.out, g.err.map structExc⟩
+  | .array => let g := chunksArrayPy native a afmt size pad xs; ⟨g.out, g.err.map arrayExc⟩
+
 /-! ### WavStream(wave_file, keep=False) -/
 
 /-- an argument as it is spelled at the call -/
